@@ -8,9 +8,10 @@ cd /verif/seeded || exit 2
 SEEDS="$@"; [ -z "$SEEDS" ] && SEEDS=$(ls)
 for s in $SEEDS; do
   [ -f "/verif/seeded/$s/patch.diff" ] || continue
+  PATCH="/verif/seeded/$s/patch.diff"; [ -f "/verif/seeded/$s/patch-rebased.diff" ] && PATCH="/verif/seeded/$s/patch-rebased.diff"
   ID=$(python3 -c "import json;print(json.load(open('/verif/seeded/$s/meta.json'))['property'])")
   cd /repo; git diff --quiet || { echo "repo dirty"; exit 2; }
-  git apply "/verif/seeded/$s/patch.diff" 2>/dev/null || git apply --3way "/verif/seeded/$s/patch.diff" 2>/dev/null || patch -p1 -F3 -s < "/verif/seeded/$s/patch.diff" || { echo "$s: patch does not apply"; continue; }
+  git apply "$PATCH" 2>/dev/null || git apply --3way "$PATCH" 2>/dev/null || patch -p1 -F3 -s < "$PATCH" || { echo "$s: patch does not apply"; continue; }
   out=$(/verif/check "$ID" --tier "$TIER" 2>&1); rc=$?
   git checkout -q -- .
   sig=$(echo "$out" | grep -m1 "signature=" | sed 's/^ *//' | cut -c1-300)
